@@ -12,7 +12,7 @@ FORBIDDEN = ["sorry", "admit", "native_decide", "bv_decide", "implemented_by", "
 
 # bridge items (extracted by T1) each property's theorems lean on
 BRIDGE = {
-    "C01": ["templates", "adsTemplates", "optFlags"],
+    "C01": ["templates", "adsTemplates", "templatesChars", "adsTemplatesChars", "optFlags"],
     "C02": ["reservedNames", "pyKeywords"],
     "C03": ["pyKeywords", "transportUnsafeExtra", "snake1", "snake2", "snake3", "snake4"],
     "C04": ["reservedNames"],
@@ -22,14 +22,14 @@ BRIDGE = {
     "C08": [],
     "C09": [],
     "C10": [],
-    "C11": ["templates", "adsTemplates", "optFlags", "filenameSlashes", "validFilename", "namingPattern",
+    "C11": ["templates", "adsTemplates", "templatesChars", "adsTemplatesChars", "optFlags", "filenameSlashes", "validFilename", "namingPattern",
             "namingVersion", "versionedPackage", "pyKeywords", "invalidModuleExtra"],
     "C12": ["reservedNames", "pyKeywords", "invalidModuleExtra", "transportUnsafeExtra"],
     "C13": ["uriSampleStar"],
     "C14": ["clientInit", "requestInit", "requestExec", "responseHandling"],
     "C15": ["pyKeywords", "reservedNames", "snake1", "snake1Repl", "snake2", "snake2Repl", "snake3", "snake3Repl", "snake4", "snake4Repl",
             "wordRanges", "digitRanges", "spaceRanges"],
-    "C16": [],
+    "C16": ["pyKeywords"],
     "C17": ["mixinsMap"],
     "C18": [],
     "C19": ["pathArg", "commonResources"],
